@@ -90,3 +90,72 @@ CHECKS["C15"] = dict(
     assumptions=["a name of 30 or more characters may be cut to 29 characters + NUL or to 30 characters (both are 'the field limit')"],
     jobs=[dict(name="pure", pkg="./pure", go=GO, test="TestC15", shards=(2, 16), checks=(30000, 400000), timeout=(300, 3000))],
 )
+
+CHECKS["C06"] = dict(
+    rule=("per registered type (dpt.ListSupportedTypes/Produce): all 256 payloads of the 1-byte types, all 2^16 payloads of the 2-byte "
+          "types, all 2^16 value encodings of every 3-byte type under three leading bytes (thorough: all 2^24), 4-byte types over "
+          "2 x 256 x 256 x 66 structured payloads (thorough: all 2^24 value octets x 2 leading bytes), 5-byte types by stratified "
+          "sampling (every exponent x sign x 18 mantissa patterns, powers of two +-1) plus a golden-ratio stride sweep (thorough: all "
+          "2^32 encodings of one representative per codec), 7-byte types over all 256 flag octets x edge values, 15-byte and "
+          "variable-length types by rapid. Non-trivial = payload the decoder accepts; distinct by (type, payload)."),
+    level_text=("Exhaustive on the 1-, 2- and 3-byte payload spaces named in the statement, dense stratified sampling elsewhere; exact "
+                "oracle: decode -> encode -> decode must reproduce the value bit for bit, and exact formats must reproduce the payload "
+                "up to reserved bits and documented replacements (independent canonicalisation table)."),
+    level_note="Trusted: the canonicalisation table and the main-number -> length table in harness/dptc (written from the KNX datapoint format). 5-byte types other than the three representatives are sampled, not exhausted.",
+    technique="exhaustive enumeration + rapid sampling, round-trip (decode-encode-decode) oracle with an independent canonical-payload table",
+    assumptions=["floats are compared by their bits (NaN payloads and signed zeros must survive)"],
+    jobs=[dict(name="dpt", pkg="./dptc", go=GO, test="TestC06", shards=(4, 16), checks=(20000, 300000), timeout=(300, 3000))],
+)
+
+CHECKS["C07"] = dict(
+    rule=("per numeric type: for every 9.xxx type the decoded value of each of the 65536 encodings, the midpoints between neighbouring "
+          "representable values and the float32 neighbours of all of these (both sides of every quantisation boundary and exponent "
+          "switch point), each also as an ordered pair with its successor; every step and half step of the scaled 5.xxx/8.xxx types "
+          "across and beyond their ranges; range bounds +-4 ulp, far out-of-range magnitudes up to MaxFloat32; IEEE 14.xxx by strata "
+          "and stride; all values of bool/8-bit/16-bit integer types, strata of 32-bit ones; struct types over field products incl. "
+          "invalid dates/times; rapid: log-uniform floats 1e-3..1e9, bound/switch-point neighbourhoods, pairs, strings of 0..40 runes "
+          "over ASCII/Latin-1/BMP/astral/NUL. Every enumerated candidate sits on or next to a quantisation boundary, bound or switch "
+          "point and is counted as non-trivial; rapid cases are distinct by plan."),
+    level_text=("Dense enumeration around every quantisation boundary of the 16-bit float and the scaled formats plus rapid sampling; "
+                "oracles from an independent range/step table: one-step accuracy, monotonicity over ordered pairs, saturation equal "
+                "to the bound's encoding, prescribed length, acceptance by the type's own decoder."),
+    level_note="Trusted: the range/step table in harness/dptc/lib_test.go (documented ranges of 5.xxx, 8.xxx, 9.xxx) and the length table. float32 inputs are sampled, not exhausted.",
+    technique="enumeration of boundary neighbourhoods + rapid sampling of values and ordered pairs; accuracy / monotonicity (metamorphic) / saturation / self-decodability oracles from an independent range table",
+    assumptions=["one step = 0.01*2^e of the 16-bit float at the magnitude of the input (plus 4 ulp of float32 arithmetic)",
+                 "18.001 values outside {0..63, 128..191} only need to land inside that set (the type is a bit field, not a range)"],
+    jobs=[dict(name="dpt", pkg="./dptc", go=GO, test="TestC07", shards=(4, 16), checks=(30000, 400000), timeout=(300, 3000))],
+)
+
+CHECKS["C08"] = dict(
+    rule=("per registered type: byte strings of every length 0..20 under 9 boundary fills (00 01 3f 40 7f 80 bf c0 ff; with and without zero "
+          "first/last byte) and a ramp, all alphabet pairs in adjacent positions at the correct length and +-1, every payload of the "
+          "correct length for 1- and 2-byte types, all 2^16 value encodings of the 3-byte types under two leading bytes (thorough: all 2^24), "
+          "the date/time/RGB types over 2 x 256 x 256 x 96 payloads (thorough: all 2^24 value octets), all 256 flag octets of the "
+          "7-byte types, rapid-drawn strings of arbitrary and near-correct length. Non-trivial = wrong-length input, or correct-length "
+          "input that is rejected, or accepted input with reserved/ignored bits set; distinct by (type, bytes)."),
+    level_text=("Exhaustive on the short payload spaces and on all lengths 0..20 over a boundary alphabet, sampled elsewhere; oracle: no "
+                "panic, wrong length => error, success => independently written range predicate holds and String()/Unit() return."),
+    level_note="Trusted: the range predicates and the length table in harness/dptc (written from the documented ranges).",
+    technique="exhaustive enumeration + rapid byte-string generation; totality (panic capture), length-rejection and independent range-predicate oracles",
+    assumptions=["types whose main number is not in the harness length table are only checked for totality"],
+    jobs=[dict(name="dpt", pkg="./dptc", go=GO, test="TestC08", shards=(4, 16), checks=(30000, 400000), timeout=(300, 3000))],
+)
+
+CHECKS["C19"] = dict(
+    rule=("static: all registered names (producible, form main.sub with 3-digit sub-number, unique, dynamic type = DPT_<digits>, zero "
+          "value) and all exported DPT_* type declarations found by parsing /repo/knx/dpt/*.go (each reachable through a name); "
+          "rapid: near-miss and free strings (unknown => ok=false, nil), single-goroutine histories of 2..40 Produce / Unpack(payload "
+          "fitting the handle's type, 10% wrong length) / lookup steps over 1..4 type names, and (job race, built with -race) 2..16 "
+          "goroutines running such histories concurrently with a shared name. After every step every live handle is compared with a "
+          "private snapshot. Non-trivial = history with >= 2 instances of one name and >= 1 successful decode, or a lookup of an "
+          "unlisted name; distinct by plan."),
+    level_text=("Complete over the registered names and the declared types of the current source; sampled histories and schedules with a "
+                "model of independent instances (snapshot per handle, address uniqueness, zero value of every fresh instance); the race "
+                "detector is the oracle for unsynchronised shared state."),
+    level_note="Trusted: go/parser view of /repo/knx/dpt (non-test files); instance independence and race freedom are shown for sampled histories/schedules only.",
+    technique="enumeration of the registry + rapid stateful (model-based) histories, sequential and concurrent under the race detector",
+    assumptions=["a failed Unpack may leave its own target partially written (not judged); it must still not touch other instances"],
+    jobs=[dict(name="dpt", pkg="./dptc", go=GO, test="TestC19", shards=(2, 12), checks=(3000, 40000), timeout=(300, 3000)),
+          dict(name="race", pkg="./dptc", go=GO, test="TestC19", race=True, shards=(2, 4), checks=(300, 4000), timeout=(300, 3000),
+               env={"VERIF_JOBNAME": "race"})],
+)
